@@ -32,6 +32,8 @@ func randDID(r *hx.Rng) *J {
 	// at most one defect-prone feature per document: big numbers, a multi-entry endpoint, JWK members the jwk package drops
 	var f feat
 
+	unknownProof := false
+
 	switch r.Intn(16) {
 	case 0:
 		f.big = true
@@ -39,6 +41,8 @@ func randDID(r *hx.Rng) *J {
 		f.caseVar = true // stands for: multi-entry / decorated DIDComm V2 endpoint
 	case 3:
 		f.jwt = true // stands for: JWK with key_ops / custom members
+	case 4:
+		unknownProof = true // a proof member the did.Proof struct does not have
 	}
 
 	allModelled := true
@@ -231,6 +235,7 @@ func randDID(r *hx.Rng) *J {
 		d.O = append(d.O, kv("service", svcs))
 	}
 
+	decorateDID(r, d, absBase, unknownProof)
 	shuffle(r, d.O)
 
 	_ = allModelled
@@ -491,6 +496,23 @@ func runDID(kind string, doc *J, note string) {
 					diffs = append(diffs, diffVM(a.A[i], o.A[i], k)...)
 				}
 			}
+		}
+
+		pdiffs := diffDIDTimesAndProofs(doc, out, abs)
+		unknownOnly := len(pdiffs) > 0
+
+		for _, x := range pdiffs {
+			if !strings.HasPrefix(x, "proof.lost:") || strings.Contains(",type,created,creator,proofValue,domain,nonce,proofPurpose,", ","+strings.TrimPrefix(x, "proof.lost:")+",") {
+				unknownOnly = false
+			}
+		}
+
+		switch {
+		case len(diffs) > 0 || len(pdiffs) == 0:
+		case unknownOnly:
+			fail("did:proof-unknown-member-dropped", strings.Join(pdiffs, ","))
+		default:
+			fail("did:member-not-preserved:"+pdiffs[0], strings.Join(pdiffs, ",")+" "+string(b))
 		}
 
 		if len(diffs) > 0 {
